@@ -5,6 +5,7 @@ CONSTANTS
   FailCs = {}
   FailNs = {1}
   PruneTs = {0, 150, 350}
+  RgsSnaps = {}
   WithReload = TRUE
 CONSTRAINT Bound
 VIEW View
